@@ -5,7 +5,7 @@
 //! and complete Redis compatibility.
 
 use std::sync::{Arc, OnceLock};
-use std::time::Instant;
+use std::time::{Duration, Instant};
 use mlua::{Lua, Result as LuaResult, MultiValue, Value as LuaValue};
 use sha1::{Sha1, Digest};
 
@@ -25,6 +25,12 @@ pub struct LuaEngine {
     // Removed local script_cache - using global cache at server level
 }
 
+/// Longest time a script may run (Redis' default lua-time-limit)
+const SCRIPT_TIME_LIMIT: Duration = Duration::from_secs(5);
+
+/// Most memory one script's Lua state may allocate
+const SCRIPT_MEMORY_LIMIT: usize = 512 * 1024 * 1024;
+
 impl LuaEngine {
     pub fn new(_storage: Arc<StorageEngine>) -> Result<Self> {
         Ok(LuaEngine {
@@ -37,7 +43,19 @@ impl LuaEngine {
         let lua = self.create_lua_context(ctx)?;
         self.setup_keys_and_args(&lua, keys, args)?;
         
+        // A script that never returns would occupy the single command thread for good, and one
+        // that builds a huge string would exhaust the process: bound run time and memory.
         let start_time = Instant::now();
+        let deadline = start_time + SCRIPT_TIME_LIMIT;
+        lua.set_hook(mlua::HookTriggers::new().every_nth_instruction(10_000), move |_lua, _debug| {
+            if Instant::now() >= deadline {
+                Err(mlua::Error::RuntimeError("script exceeded the execution time limit".to_string()))
+            } else {
+                Ok(mlua::VmState::Continue)
+            }
+        }).map_err(|e| FerrousError::LuaError(e.to_string()))?;
+        lua.set_memory_limit(SCRIPT_MEMORY_LIMIT).map_err(|e| FerrousError::LuaError(e.to_string()))?;
+        
         let result = lua.load(script).eval::<LuaValue>();
         
         match result {
